@@ -76,7 +76,7 @@ func c17Pick(method string) func(t reflect.Type, pos int) []namedValue {
 			return aw
 		}
 		if t == opType {
-			return []namedValue{{"Eq", reflect.ValueOf(stackage.Eq)}, {"nil-op", reflect.Zero(opType)}, nv("userOp", userOp{"~", "c"})}
+			return []namedValue{{"Eq", reflect.ValueOf(stackage.Eq)}, {"nil-op", reflect.Zero(opType)}, nv("userOp", userOp{"~", "c"}), nv("sliceOp", sliceOp{"=~", "ctx"})}
 		}
 		if t == intType {
 			return []namedValue{nv("0", 0), nv("-1", -1), nv("5", 5)}
